@@ -65,7 +65,14 @@ Section Dispatch.
      on which reflect.Value.Elem panics.  fixed_elem = false is that code;
      true dereferences pointer results only (fix: commit for the nested-slice panic). *)
   Variable fixed_elem : bool.
+  (* fixed_trim = true: an element (map key, map value) whose kind is not string is
+     passed through strings.TrimSpace before it is parsed (fix: commit for the trailing
+     blank: the scanner skips blanks before a token but keeps those after an unquoted
+     one); false: the token is parsed as scanned *)
+  Variable fixed_trim : bool.
   Definition p_elem_panic : N := 1.
+  Definition tok (e : ty) (x : str) : str :=
+    if fixed_trim then match e with TStr => x | _ => trim_space x end else x.
 
   Definition parse_scalar (t : ty) (s : str) : outcome pval :=
     match t with
@@ -80,7 +87,7 @@ Section Dispatch.
     | _ => Err e_kind
     end.
 
-  Fixpoint parse_string (t : ty) (s : str) : outcome pval :=
+  Fixpoint parse_string_gen (t : ty) (s : str) : outcome pval :=
     match t with
     | TStr | TBool | TInt _ | TUint _ | TDur => parse_scalar t s
     | TSlice e =>
@@ -89,7 +96,7 @@ Section Dispatch.
         | TStr => Ok (VList (map VStr l))
         | _ =>
             omap VList
-              (map_out (fun x => v <- parse_string e x ;;
+              (map_out (fun x => v <- parse_string_gen e (tok e x) ;;
                                  if fixed_elem || scalar_kind e then Ok v else Panic p_elem_panic) l)
         end
     | TMss => omap VMss (mss_parse_gen fixed isp s)
@@ -99,11 +106,15 @@ Section Dispatch.
           omap VMap
             (split_map isp fixed
                (fun m ks vs =>
-                  kc <- parse_scalar k ks ;;
+                  kc <- parse_scalar k (tok k ks) ;;
                   if existsb (fun kv => scalar_eqb kc (fst kv)) m then Err e_dup
-                  else vc <- parse_scalar v vs ;; Ok (m ++ [(kc, vc)]))
+                  else vc <- parse_scalar v (tok v vs) ;; Ok (m ++ [(kc, vc)]))
                s [])
         else Err e_kind
     | TOther => Err e_kind
     end.
 End Dispatch.
+
+(* the current tree has the trailing-blank fix *)
+Definition parse_string (isp : rune -> bool) (fixed fixed_elem : bool) : ty -> str -> outcome pval :=
+  parse_string_gen isp fixed fixed_elem true.
